@@ -229,6 +229,13 @@ def bestBackupAt (m : Model) (τ : Rat) (Γ : List Vec) (b : Vec) : Vec :=
   let val := fun a => dot m.S b (bestRowTo m.S b m.O (projList m τ Γ a))
   bestRowTo m.S b m.O (projList m τ Γ (argmaxTo (m.A - 1) val))
 
+/-! ## Witness: vectors as sums of one chosen projection per observation, and their one-observation variations -/
+
+/-- Σ_{o<k} c o : the vector `crossSumBestAtBelief` / `addVariations` assemble from one chosen projection per observation -/
+def sumVecTo (n : Nat) : Nat → (Nat → Vec) → Vec
+  | 0, _ => vzero n
+  | k+1, c => vadd n (sumVecTo n k c) (c k)
+
 /-! ## RTBSS as written -/
 
 /-- `RTBSS::upperBound`: discount * maxR * horizon -/
